@@ -419,24 +419,31 @@ fn gen_multi(seed: u64, idx: u64) -> MultiHistory {
     let total = r.range(nthreads as u64, 12) as usize;
     let mut scripts = vec![vec![]; nthreads];
     let nodes: Vec<usize> = (0..NPATH).collect();
+    // what each caller knows to be registered: the set-up prefix plus its own additions
+    // (callers never remove or rename, so this knowledge stays true)
+    let base: BTreeSet<usize> = m.nodes.iter().copied().collect();
+    let mut known: Vec<BTreeSet<usize>> = vec![base; nthreads];
     for i in 0..total {
-        // each caller's target choice cannot know what the others do: renames and removals are
-        // left to the set-up prefix so that the protocol (registered targets) still holds
+        let t = i % nthreads;
         let mut op = gen_op(&mut r, &nodes, &mut fresh, false);
         if matches!(op, Op::Remove(_)) {
             op = Op::IncRef(r.below(NPATH as u64) as usize, r.below(NPATH as u64) as usize);
         }
-        if let Op::IncRef(_, d) = &op {
-            if !m.has(*d) {
-                // register the target first, in the same caller
-                scripts[i % nthreads].push(Op::AddNode(*d));
-                m.apply(&Op::AddNode(*d));
+        match &op {
+            Op::IncRef(rr, d) => {
+                if !known[t].contains(d) {
+                    // usage protocol: register the target first, in the same caller
+                    scripts[t].push(Op::AddNode(*d));
+                    known[t].insert(*d);
+                }
+                known[t].insert(*rr);
             }
+            Op::AddNode(p) => {
+                known[t].insert(*p);
+            }
+            _ => {}
         }
-        scripts[i % nthreads].push(op);
-    }
-    for s in scripts.iter_mut() {
-        s.truncate(6);
+        scripts[t].push(op);
     }
     MultiHistory { setup, scripts }
 }
